@@ -139,6 +139,7 @@ func (c *vhConn) Write(p []byte) (int, error) {
 }
 func (c *vhConn) Close() error {
 	c.closed = true
+	vthreadEnd()
 	return nil
 }
 func (c *vhConn) LocalAddr() net.Addr { return vhAddr{} }
